@@ -77,4 +77,24 @@ theorem level_order : ∀ a ∈ levelDigits, ∀ b ∈ levelDigits, strLt a b = 
 example : countSince [lit "1", lit "1", lit "0", lit "1"] (lit "1") = 2 := by decide
 example : (counterAfter [lit "0", lit "2", lit "1", lit "0"]).keys = [lit "0"] := by decide
 
+/-! ## definitions: a dangling reference concerns its own list only -/
+
+/-- **C08: a `w:num` that refers to a definition that does not exist leaves every other list's
+definition as it is** — the table is the one read without that entry (its own list id stays
+undefined, hence `--`). -/
+theorem C08_dangling_num_isolated (abs d : Dict Str (List NumAttr)) (n : Xml) (ns : List Xml)
+    (numId v : Str) (qa : QName) (a : Xml)
+    (h1 : n.attrReq (lit "w") (lit "numId") = .ok numId) (h2 : wq n "abstractNumId" = .ok qa)
+    (h3 : n.findChild qa = some a) (h4 : a.attrReq (lit "w") (lit "val") = .ok v) (h5 : abs.get? v = none) :
+    numEntries abs (n :: ns) d = numEntries abs ns d := by
+  simp only [numEntries, h1, ok_bind, h2, h3, h4, h5]
+
+/-- and a `w:num` whose definition exists is recorded under its list id -/
+theorem C08_defined_num_recorded (abs d : Dict Str (List NumAttr)) (n : Xml) (ns : List Xml)
+    (numId v : Str) (qa : QName) (a : Xml) (ls : List NumAttr)
+    (h1 : n.attrReq (lit "w") (lit "numId") = .ok numId) (h2 : wq n "abstractNumId" = .ok qa)
+    (h3 : n.findChild qa = some a) (h4 : a.attrReq (lit "w") (lit "val") = .ok v) (h5 : abs.get? v = some ls) :
+    numEntries abs (n :: ns) d = numEntries abs ns (d.set numId ls) := by
+  simp only [numEntries, h1, ok_bind, h2, h3, h4, h5]
+
 end D2P
